@@ -5,6 +5,7 @@ of handles and columns, the scalar fields, the event vectors).  Identity is prov
 INDEPENDENCE is trivial in a functional model (values are not shared) and is therefore not
 exhibited by the model: it rests on the tie (clone-and-diverge phases of harness/rt with
 probes on both worlds, drop in both orders with the registry; thorough: under Miri).
+World-history form: Props/Histories.lean (C13_all_histories).
 -/
 import Gecs.Lemmas.Values
 import Gecs.Lemmas.Ownership
